@@ -66,6 +66,7 @@ type engine struct {
 	// badPub is a public key of a type the envelope code does not support (ECDSA P-256, verify-only adapter)
 	badPub crypto.PubKey
 	tcN    int // rotates the key-subset class of the C18 tamper cases
+	w4N    int // rotates the variants of the C18 context × key-set cases (c18w4.go)
 	normAt int // rotates through the normalisations of harness/norm
 	// knownOther counts, per class of the known finding C18-unauthenticated-envelope, the cases that opened to another payload
 	knownOther map[string]int
@@ -1944,6 +1945,7 @@ var c18Branches = []string{"ctxhash", "keys.none", "keys.below", "keys.at", "key
 func (e *engine) runC18() {
 	e.rep.Rule = "sealed envelopes (configurations from the C16 bound with decryptable grants) unlocked under other contexts; every top-level field replaced (envelope id, context hash, threshold incl. 2^32-1, ciphertext bit flips / truncations below and above the nonce size / foreign ciphertext, grants dropped / duplicated / swapped / keypair indexes rewritten / ciphertexts flipped and truncated to 0..52 bytes, keypairs dropped / reordered / garbage), grants re-encrypted by an outsider with aliased, duplicated, zero, mis-sized share ids and garbage plaintexts, wire-level bit flips / truncations / random bytes; the model predicts the exact outcome on the bytes; distinct = distinct op line"
 	e.rep.Require(c18Branches...)
+	e.rep.Require(c18w4Branches()...)
 	e.stringsTie(100 * e.a.Scale)
 	e.hashTie(150 * e.a.Scale)
 	n := 48 * e.a.Scale // sealed envelopes (before: 60 drawn, about 45 of them accepted)
@@ -2011,7 +2013,9 @@ func (e *engine) runC18() {
 		}
 		tcxk = func(env *envelope.Envelope, gen, fkey, mustNotOpen string) {
 			w := mustWire(env)
-			e.wireCaseX(w, ctx, all, payload, gen, fkey, false, false, mustNotOpen)
+			// wave 4: an altered context_hash IS a different context for every key set (monitor, not only the model)
+			mcm := strings.HasPrefix(gen, "ctxhash-")
+			e.wireCaseX(w, ctx, all, payload, gen, fkey, mcm, false, mustNotOpen)
 			order := []string{"none", "below", "at", "above"}
 			for k := 0; k < 4; k++ {
 				cl := order[(e.tcN+k)%4]
@@ -2029,7 +2033,7 @@ func (e *engine) runC18() {
 				if why == "" && cl == "below" {
 					why = "the offered keys reach fewer than threshold+1 shares of the sealed envelope"
 				}
-				e.wireCaseX(w, ctx, e.offerKeys(sub), payload, gen+"/keys-"+cl, fkey, false, false, why)
+				e.wireCaseX(w, ctx, e.offerKeys(sub), payload, gen+"/keys-"+cl, fkey, mcm, false, why)
 				e.rep.Branches["keys."+cl]++
 				break
 			}
@@ -2051,6 +2055,7 @@ func (e *engine) runC18() {
 				e.rep.Branches["gen.ctx-prefix"]++
 			}
 		}
+		e.c18ContextKeysets(b, wire, ctx, payload, classes) // wave 4: every key-set class (c18w4.go)
 		{
 			// context hash replaced by the hash of another context, unlocked under that context
 			t := clone(b.env)
